@@ -1296,9 +1296,9 @@ impl ArrayCmp for u8 {
 
 impl ArrayCmp for Complex {
     fn array_cmp(&self, other: &Self) -> Ordering {
-        self.partial_cmp(other).unwrap_or_else(|| {
-            (self.re.is_nan(), self.im.is_nan()).cmp(&(other.re.is_nan(), other.im.is_nan()))
-        })
+        // Compare part-wise with the total order on reals so that equal numbers
+        // (e.g. ones with a NaN real part) always have equal imaginary parts and hash alike
+        (self.re.array_cmp(&other.re)).then_with(|| self.im.array_cmp(&other.im))
     }
 }
 
